@@ -71,6 +71,13 @@ def run_case(ctx, rig, key_words, plans=None, actions=None, fail=None, typed=Fal
     d = treecmp.diff(episodes.host((sa, tsa)), episodes.host((sw, tsw)), exact=False)
     if d:
         fail("autoreset.reset", "VmapAutoResetWrapper.reset != VmapWrapper(AutoResetWrapper).reset", d)
+    # both compositions carry extras['next_obs'] exactly when asked to (whatever other wrapper instances exist in the
+    # process: the rigs of one worker are built with both settings)
+    for name, ts_ in (("VmapAutoResetWrapper", tsa), ("VmapWrapper(AutoResetWrapper)", tsw)):
+        has = isinstance(ts_.extras, dict) and "next_obs" in ts_.extras
+        if has != bool(rig.flag):
+            fail("autoreset.extras", f"{name}: extras['next_obs'] present={has} with next_obs_in_extras={bool(rig.flag)}",
+                 f"extras keys {sorted(ts_.extras) if isinstance(ts_.extras, dict) else type(ts_.extras).__name__}")
     played = []
     n = N_STEPS if actions is None else len(actions)
     for t in range(n):
